@@ -3,6 +3,7 @@ package server
 import (
 	"context"
 	"strings"
+	"sync/atomic"
 	"time"
 
 	"github.com/mimecast/dtail/internal"
@@ -28,6 +29,12 @@ type Aggregate struct {
 	query *mapr.Query
 	// The mapr log format parser
 	parser logformat.Parser
+	// MoreLinesExpected tells (if set) whether further line channels may still
+	// be queued, e.g. because files are still being read or wait to be read.
+	MoreLinesExpected func() bool
+	// Number of line channels handed over for re-queueing by nextLine(), but
+	// which are not back in NextLinesCh yet.
+	requeuing int32
 }
 
 // NewAggregate return a new server side aggregator.
@@ -123,7 +130,9 @@ func (a *Aggregate) nextLine() (line *line.Line, ok bool, noMoreChannels bool) {
 			select {
 			case a.linesCh = <-a.NextLinesCh:
 			default:
-				noMoreChannels = true
+				// Only done when nobody can queue another channel any more.
+				noMoreChannels = atomic.LoadInt32(&a.requeuing) == 0 &&
+					(a.MoreLinesExpected == nil || !a.MoreLinesExpected())
 			}
 		}
 	default:
@@ -131,7 +140,11 @@ func (a *Aggregate) nextLine() (line *line.Line, ok bool, noMoreChannels bool) {
 		select {
 		case newLinesCh := <-a.NextLinesCh:
 			oldLinesCh := a.linesCh
-			go func() { a.NextLinesCh <- oldLinesCh }()
+			atomic.AddInt32(&a.requeuing, 1)
+			go func() {
+				a.NextLinesCh <- oldLinesCh
+				atomic.AddInt32(&a.requeuing, -1)
+			}()
 			a.linesCh = newLinesCh
 		default:
 			// No new lines channel found.
